@@ -283,3 +283,18 @@ Theorem find_complete : forall bytes parse salvage fuel res, cab_find bytes pars
   forall q, sig_at bytes q -> accepted bytes parse salvage q = true ->
             (forall p, In p res -> p < q -> p + cablen_at bytes p <= q) -> In q res.
 Proof. intros bytes parse salvage fuel res E q S A SH. apply (find_complete_from bytes parse salvage fuel 0 [] res E q); [lia|exact S|exact A|exact SH]. Qed.
+
+(* ---------- the search loop returns: fuel proportional to the file length always suffices ---------- *)
+Theorem find_terminates : forall bytes parse salvage fuel off acc,
+  (N.to_nat (flen bytes - off) < fuel)%nat -> exists res, cab_find bytes parse salvage fuel off acc = Some res.
+Proof.
+  intros bytes parse salvage. induction fuel as [|f IH]; intros off acc Hf; [lia|]. cbn [cab_find].
+  pose proof (first_cand_spec (skipn (N.to_nat off) bytes) off) as SP.
+  destruct (first_cand (skipn (N.to_nat off) bytes) off a0) as [[[caboff cablen] foffset]|a']; [|eauto].
+  destruct SP as (j & tl & _ & Hp & _).
+  pose proof (resume_advances caboff cablen foffset (plausible bytes salvage caboff cablen foffset) (parse caboff)) as ADV.
+  destruct (N.leb_spec (flen bytes) (resume_offset caboff cablen foffset (plausible bytes salvage caboff cablen foffset) (parse caboff))) as [_|LT]; [eauto|].
+  apply IH. lia.
+Qed.
+Corollary find_returns : forall bytes parse salvage, exists res, cab_find bytes parse salvage (S (length bytes)) 0 [] = Some res.
+Proof. intros. apply find_terminates. unfold flen. lia. Qed.
